@@ -30,7 +30,7 @@ def pre : List StepRec :=
 def setA : StepRec :=
   { actor := "u1a", op := .seteuidStr "u1", vs := some ("u1a", "u1", .int 1), res := some (.int 1), snap := some [M, A1, B0] }
 
-def J (t : List StepRec) : List String := judgeEv "Root" (some "Backbone") t
+def J (t : List StepRec) : List String := judgeEv { root := "Root", bb := some "Backbone" } t
 
 /-! positive controls -/
 example : J pre = [] := by decide
@@ -125,5 +125,38 @@ example : J (pre ++ [{ actor := "m", op := .load ⟨"u1", "b"⟩, creations := [
 -- the driver crashed / printed no snapshot
 example : J (pre ++ [{ actor := "m", op := .seteuidInt 0, crash := true }]) ≠ [] := by decide
 example : J (pre ++ [{ actor := "m", op := .seteuidInt 5, res := some (.err .badArg) }]) ≠ [] := by decide
+
+/-! bind clause (round 5) -/
+def bindOp : Op := .bind "u1a" (.load ⟨"u1", "b"⟩)
+-- positive control: the master approved exactly this doer and new owner, the function may run
+example : J (pre ++ [setA, { actor := "u2a", op := bindOp, vb := some ("u2a", "u1a", .int 1), bindTo := some "u1a", snap := some [M, A1, B0] }]) = [] := by decide
+-- positive control: binding to oneself needs nobody
+example : J (pre ++ [setA, { actor := "u1a", op := bindOp, bindTo := some "u1a", snap := some [M, A1, B0] }]) = [] := by decide
+-- positive control: a refused bind() ends with the error in its first segment
+example : J (pre ++ [setA, { actor := "u2a", op := bindOp, vb := some ("u2a", "u1a", .int 0), bindTo := some "u1a", res := some (.err .bindDenied), snap := some [M, A1, B0] }]) = [] := by decide
+-- the function runs although the master was not asked
+example : J (pre ++ [setA, { actor := "u2a", op := bindOp, bindTo := some "u1a", snap := some [M, A1, B0] }]) ≠ [] := by decide
+-- ... although the master refused
+example : J (pre ++ [setA, { actor := "u2a", op := bindOp, vb := some ("u2a", "u1a", .int 0), bindTo := some "u1a", snap := some [M, A1, B0] }]) ≠ [] := by decide
+-- ... although the master's apply raised an error
+example : J (pre ++ [setA, { actor := "u2a", op := bindOp, vb := some ("u2a", "u1a", .err), bindTo := some "u1a", snap := some [M, A1, B0] }]) ≠ [] := by decide
+-- the master approved another new owner
+example : J (pre ++ [setA, { actor := "u2a", op := bindOp, vb := some ("u2a", "m", .int 1), bindTo := some "u1a", snap := some [M, A1, B0] }]) ≠ [] := by decide
+-- the master approved another doer
+example : J (pre ++ [setA, { actor := "u2a", op := bindOp, vb := some ("u1a", "u1a", .int 1), bindTo := some "u1a", snap := some [M, A1, B0] }]) ≠ [] := by decide
+
+/-! other configurations (round 5): the initial snapshot is part of the specification -/
+def Jc (c : Cfg) (t : List StepRec) : List String := judgeEv c t
+-- a master without get_root_uid() starts with "NONAME" / 0: a trace that shows it as root from the start is rejected
+example : Jc { root := "Root", bb := none, noRoot := true } [{ actor := "m", op := .seteuidInt 5, res := some (.err .badArg), snap := some [M] }] ≠ [] := by decide
+example : Jc { root := "Root", bb := none, noRoot := true } [{ actor := "m", op := .seteuidInt 5, res := some (.err .badArg), snap := some [ob "m" (some "NONAME") none] }] = [] := by decide
+-- without a backbone uid a "Backbone" answer gives no euid
+example : Jc { root := "Root", bb := none } [{ actor := "m", op := .load ⟨"bb", "a"⟩, creations := [mk "bba" "/c20/bb/a" (.str "Backbone") (some "Root") (some "Root")], snap := some [M, ob "bba" (some "Root") (some "Root")] }] ≠ [] := by decide
+example : J [{ actor := "m", op := .load ⟨"bb", "a"⟩, creations := [mk "bba" "/c20/bb/a" (.str "Backbone") (some "Root") (some "Root")], snap := some [M, ob "bba" (some "Root") (some "Root")] }] = [] := by decide
+-- the simul_efun object exists from the start (uid NONAME, euid 0) and gets no object created on its behalf
+example : Jc { root := "Root", bb := some "Backbone", simul := true } [{ actor := "se", op := .load ⟨"u1", "a"⟩, creations := [mk "u1a" "/c20/u1/a" (.str "u1") (some "u1") none], snap := some [M, ob "se" (some "NONAME") none, A0] }] ≠ [] := by decide
+-- a master reload that renames somebody else's uid (the class of the independently written change C20-4)
+example : J (pre ++ [{ actor := "m", op := .dest "m", creations := [{ name := "/c20/master", ans := none, made := some (ob "m" (some "zed") (some "zed")) }], res := some (.int 1), snap := some [ob "m" (some "zed") (some "zed"), A0, B0] }]) = [] := by decide
+example : J (pre ++ [{ actor := "m", op := .dest "m", creations := [{ name := "/c20/master", ans := none, made := some (ob "m" (some "zed") (some "zed")) }], res := some (.int 1), snap := some [ob "m" (some "zed") (some "zed"), ob "u1a" (some "zed") none, B0] }]) ≠ [] := by decide
 
 end NV.C20.Negative
